@@ -112,7 +112,7 @@ func (c Int8) Div(a, b ConstScalar) Scalar {
 }
 /* -------------------------------------------------------------------------- */
 func (c Int8) LogAdd(a, b ConstScalar, t Scalar) Scalar {
-  if a.Greater(b) {
+  if a.GetFloat64() > b.GetFloat64() {
     // swap
     a, b = b, a
   }
